@@ -39,11 +39,11 @@ ASMJIT_FAVOR_SIZE Error EmitHelper::emit_reg_move(
     switch (type_id) {
       case TypeId::kInt8:
       case TypeId::kUInt8:
-        return emitter->ldrb(dst.as<Gp>(), src);
+        return emitter->ldrb(dst.as<Gp>().w(), src);
 
       case TypeId::kInt16:
       case TypeId::kUInt16:
-        return emitter->ldrh(dst.as<Gp>(), src);
+        return emitter->ldrh(dst.as<Gp>().w(), src);
 
       case TypeId::kInt32:
       case TypeId::kUInt32:
@@ -78,11 +78,11 @@ ASMJIT_FAVOR_SIZE Error EmitHelper::emit_reg_move(
     switch (type_id) {
       case TypeId::kInt8:
       case TypeId::kUInt8:
-        return emitter->strb(src.as<Gp>(), dst);
+        return emitter->strb(src.as<Gp>().w(), dst);
 
       case TypeId::kInt16:
       case TypeId::kUInt16:
-        return emitter->strh(src.as<Gp>(), dst);
+        return emitter->strh(src.as<Gp>().w(), dst);
 
       case TypeId::kInt32:
       case TypeId::kUInt32:
@@ -182,7 +182,31 @@ Error EmitHelper::emit_arg_move(
       dst.set_signature(OperandSignature{x ? RegTraits<RegType::kGp64>::kSignature : RegTraits<RegType::kGp32>::kSignature});
       _emitter->set_inline_comment(comment);
 
+      // A zero extending load or move writes the W view of the destination (the upper half is cleared by the CPU).
+      OperandSignature w_signature{RegTraits<RegType::kGp32>::kSignature};
+
       if (src.is_reg()) {
+        if (src_size < dst_size) {
+          // Narrower source - sign or zero extend according to the source type (like the loads below).
+          InstId ext_id = Inst::kIdNone;
+          switch (src_type_id) {
+            case TypeId::kInt8: ext_id = Inst::kIdSxtb; break;
+            case TypeId::kUInt8: ext_id = Inst::kIdUxtb; break;
+            case TypeId::kInt16: ext_id = Inst::kIdSxth; break;
+            case TypeId::kUInt16: ext_id = Inst::kIdUxth; break;
+            case TypeId::kInt32: ext_id = Inst::kIdSxtw; break;
+            case TypeId::kUInt32: ext_id = Inst::kIdMov; break;
+            default:
+              return make_error(Error::kInvalidState);
+          }
+
+          src.set_signature(w_signature);
+          if (ext_id == Inst::kIdUxtb || ext_id == Inst::kIdUxth || ext_id == Inst::kIdMov) {
+            dst.set_signature(w_signature);
+          }
+          return _emitter->emit(ext_id, dst, src);
+        }
+
         src.set_signature(dst.signature());
         return _emitter->emit(Inst::kIdMov, dst, src);
       }
@@ -190,11 +214,11 @@ Error EmitHelper::emit_arg_move(
         InstId inst_id = Inst::kIdNone;
           switch (src_type_id) {
           case TypeId::kInt8: inst_id = Inst::kIdLdrsb; break;
-          case TypeId::kUInt8: inst_id = Inst::kIdLdrb; break;
+          case TypeId::kUInt8: inst_id = Inst::kIdLdrb; dst.set_signature(w_signature); break;
           case TypeId::kInt16: inst_id = Inst::kIdLdrsh; break;
-          case TypeId::kUInt16: inst_id = Inst::kIdLdrh; break;
+          case TypeId::kUInt16: inst_id = Inst::kIdLdrh; dst.set_signature(w_signature); break;
           case TypeId::kInt32: inst_id = x ? Inst::kIdLdrsw : Inst::kIdLdr; break;
-          case TypeId::kUInt32: inst_id = Inst::kIdLdr; break;
+          case TypeId::kUInt32: inst_id = Inst::kIdLdr; dst.set_signature(w_signature); break;
           case TypeId::kInt64: inst_id = Inst::kIdLdr; break;
           case TypeId::kUInt64: inst_id = Inst::kIdLdr; break;
           default:
